@@ -234,6 +234,10 @@ def run_num(case):
                 W2 = list(wperm) + [1.0] * (n - k3)
                 order = list(rperm) + list(range(k3, n))
                 signed_variants.append((W2, order))
+        # weights greater than one (exact in floating point), natural and reversed rule order
+        BIGW = [3.0, 2.0, 1.5, 4.0, 0.75, 5.0]
+        signed_variants.append(([BIGW[i % 6] for i in range(n)], list(range(n))))
+        signed_variants.append(([BIGW[(i + 2) % 6] for i in range(n)], list(range(n))[::-1]))
     for name, f in objs.items():
         if isinstance(f, str):
             fails.append(_fail(f"{name}:construct", dict(inp0, parser=name), f, "parser object"))
